@@ -2,8 +2,10 @@ use crate::core::Ctx;
 pub mod c01;
 pub mod c02;
 pub mod c03;
+pub mod c04;
 pub mod c07;
 pub mod c08;
+pub mod c12;
 pub mod c14;
 pub mod c15;
 
@@ -12,8 +14,10 @@ pub fn dispatch(ctx: &Ctx) -> i32 {
         "C01" => c01::run(ctx),
         "C02" => c02::run(ctx),
         "C03" => c03::run(ctx),
+        "C04" => c04::run(ctx),
         "C07" => c07::run(ctx),
         "C08" => c08::run(ctx),
+        "C12" => c12::run(ctx),
         "C14" => c14::run(ctx),
         "C15" => c15::run(ctx),
         other => {
